@@ -369,7 +369,7 @@ def judge_c08(ctx, idx, op, impl, mi, ms, reason):
             bad = "%d requests: %d handler calls, %d octets written (expected %d)" % (n, len(calls), wlen, sum(al))
         else:
             # the same requests and answers under another segmentation must give the same calls and octets
-            key = lab.get("reqlens", "") + "/" + lab.get("anslens", "")
+            key = lab.get("corpus", "") + "/" + lab.get("reqlens", "") + "/" + lab.get("anslens", "")
             base = ctx.baselines.get(key)
             if base is None:
                 ctx.baselines[key] = (calls, wr)
